@@ -29,6 +29,18 @@ BUDGET = {'quick': 50, 'thorough': 1000}
 PEER_HOLDS = [90, 0, 3, 180]
 _fresh = {}
 
+# prefix-seeded exploration: faults applied to states a search from boot reaches only at depth 8+
+PREFIXES = [
+    ('default', ['START', 'ACCEPT', 'OPEN_h9', 'TICK', 'TICK', 'KA']),
+    ('default', ['TICK', 'ACCEPT', 'OPEN_h9', 'KA', 'NOTI_CEASE']),
+    ('default', ['TICK', 'ACCEPT', 'OPEN_h0', 'KA']),
+    ('small', ['TICK', 'ACCEPT', 'OPEN', 'KA', 'TICK', 'TICK']),
+    ('small', ['TICK', 'ACCEPT', 'OPEN_h1', 'TICK', 'ACCEPT']),
+    ('retry10', ['TICK', 'TICK', 'TICK']),
+    ('retry10', ['TICK', 'ACCEPT', 'OPEN', 'KA', 'STOP', 'START']),
+]
+PREFIX_DEPTH = {'quick': 3, 'thorough': 5}
+
 
 class OpMonitor(Monitor):
     def __init__(self, w):
@@ -109,6 +121,9 @@ def plan(tier, seed):
         for p in range(PARTS[tier]):
             shards.append(dict(kind='bfs', cfg=name, part=p, nparts=PARTS[tier], d0=d0, depth=d, budget=BUDGET[tier],
                                peer_hold=PEER_HOLDS[p % len(PEER_HOLDS)] if name != 'default' else 90))
+    for i, (name, pre) in enumerate(PREFIXES):
+        shards.append(dict(kind='bfs', cfg=name, part=0, nparts=1, d0=1, depth=PREFIX_DEPTH[tier], budget=BUDGET[tier],
+                           peer_hold=PEER_HOLDS[i % len(PEER_HOLDS)], start=[pre]))
     n, length = WALKS[tier]
     nshard = 4 if tier == 'quick' else 16
     for i in range(nshard):
@@ -133,11 +148,13 @@ def run_shard(sh):
             continuation(r, sh['cfg'], sh['peer_hold'], stats)
             grab(r)
         ex = S.bfs_shard(cfg, [OpMonitor], S.ALPHABET_C01, sh['d0'], sh['depth'], sh['part'], sh['nparts'],
-                         multi=False, on_state=on_state, time_budget=sh['budget'])
+                         multi=False, on_state=on_state, time_budget=sh['budget'], start=sh.get('start'))
         res['evaluations'] = stats['continued']
         res['distinct'] = ['%s|%d' % (sh['cfg'], hash(k)) for k in ex.seen]
         res['counters'] = dict(executed_sequences=ex.execs, executed_events=ex.events, states=len(ex.seen),
                                truncated_shards=int(ex.truncated))
+        if sh.get('start'):
+            res['counters']['prefix_seeded_sequences'] = ex.execs
         res['maxima'] = dict(depth_reached=ex.depth_reached)
         if sh['part'] == 0:
             res['samples'] = [dict(cfg=sh['cfg'], prefix=list(s), peer_hold=sh['peer_hold']) for s in list(ex.seen.values())[-2:]]
